@@ -280,6 +280,7 @@ PROPS['C19'] = {
                     'uninterpreted pure functions',
                     'ConfigManager.config_to_str / load_data and the transform classes are opaque events in the contracts: their round trip is '
                     'decided only by the bounded stand-in'],
+    'technique': 'contract-based deductive verification (PyVC) of the save / load protocol as file-system event contracts; text formats, pipeline and crash injection by a bounded native stand-in on real files',
 }
 
 PROPS['C06'] = {
@@ -304,6 +305,7 @@ PROPS['C06'] = {
                     'ids of requests registered in different layers are distinct (ProtocolEntity._generateId is a counter), so a reply is consumed '
                     'by one registry', 'entity_class_facts (namespace of the classes the send guards test by class): assumed in the lemma, checked '
                     'natively and completely', 'handleMap tables: checked natively and completely (constructors of the layers are not under contract)'],
+    'technique': 'contract-based deductive verification (PyVC): per-handler contracts + composition lemmas over the same guard predicates; finite table facts and the assembled group checked natively (bounded cross-check)',
 }
 
 PROPS['C10'] = {
@@ -329,6 +331,7 @@ PROPS['C10'] = {
                     'SerializeToString / ParseFromString are inverse on every field (protobuf library)',
                     'required constructor parameters are not None (precondition); a document\'s own length equals its download descriptor\'s '
                     '(one wire field); protocol messages are of type REVOKE (class invariant of ProtocolAttributes)'],
+    'technique': 'contract-based deductive verification (PyVC with a proto2 object model): generated contracts for all converter pairs + scenarios composing them; context info and Serialize/Parse by a bounded native stand-in',
 }
 
 PROPS['C09'] = {
@@ -350,6 +353,7 @@ PROPS['C09'] = {
                                 'the documented value; binary blobs and protobuf payloads keep the documented value (C10); codec check for classes '
                                 'that are sent (name heuristic: not Incoming/Result/Success/Failure/Error/*Notification)'}],
     'assumptions': ['the repository\'s own fixtures are the documented shapes', 'classes without a fixture are not exercised (listed in the evidence)'],
+    'technique': 'bounded native stand-in on the real classes and codec (labelled bounded) for almost all classes; contract-based deductive verification (PyVC scenarios on a symbolic stanza) for 4 simple classes only',
 }
 
 PROPS['C03'] = {
@@ -373,6 +377,7 @@ PROPS['C03'] = {
                     'random.randint(a, b) is in [a, b]', 'entity constructors (EncProtocolEntity, EncryptedMessageProtocolEntity, retry receipts) are '
                     'opaque events: what they serialise is C09', 'group sending (sendToGroup, sendToGroupWithSessions, ensureSessionsAndSendToGroup) and '
                     'handle*Message are not under contract'],
+    'technique': 'contract-based deductive verification (PyVC: VCs from the real ast, z3/cvc5) of the glue functions around python-axolotl; the end-to-end statement itself is outside the technique (partial claim)',
 }
 
 PROPS['C04'] = {
@@ -391,6 +396,7 @@ PROPS['C04'] = {
     'assumptions': ['consonance (WANoiseProtocol, handshake, BlockingQueueSegmentedStream) and queue.Queue (FIFO) are outside the proofs',
                     'thread interleavings are not modelled (C11, section 8)', 'ClientConfig / UserAgentConfig are opaque constructors: only the '
                     'passive argument is tied to the event'],
+    'technique': 'contract-based deductive verification (PyVC) of the sequential glue of YowNoiseLayer as event-protocol contracts; interleavings and the handshake are outside the technique (partial claim)',
 }
 
 NOT_APPLICABLE = {
